@@ -233,7 +233,8 @@ def run(ctx: Ctx):
             if isinstance(e, ast.Call) and isinstance(e.func, ast.Attribute) and e.func.attr == meth:
                 return True
             if isinstance(e, ast.Name):
-                vals = res(e)
+                # `None` stands for "nothing to write" and never reaches the writer as rows
+                vals = [v for v in res(e) if not (isinstance(v, ast.Constant) and v.value is None)]
                 return bool(vals) and all(whole(v, depth + 1) for v in vals)
             if isinstance(e, ast.Call) and isinstance(e.func, ast.Name) and e.func.id in ("list", "tuple") and len(e.args) == 1:
                 return whole(e.args[0], depth + 1)
